@@ -619,6 +619,23 @@ var Chains = func() []struct{ Src, In string } {
 			}
 		}
 	}
+	// deep merges whose operands collide on objects three levels down: every level written must be a copy
+	din := `{"d1":{"a":{"b":{"x":1,"c":{"u":1}},"k":1}},"d2":{"a":{"b":{"y":2,"c":{"v":2}},"k":2}},"d3":{"a":{"b":{"c":{"w":3}}}},"e":{},"arr":[{"a":{"b":{"c":{"p":1}}}},{"a":{"b":{"c":{"q":2}}}},{"a":{"b":{"c":{"r":3}}}}]}`
+	deep := []string{".d1", ".d2", ".d3", ".e", `{"a":{"b":{"z":3,"c":{"lit":1}}}}`}
+	for _, a := range deep {
+		for _, b := range deep {
+			out = append(out, struct{ Src, In string }{"(" + a + " * " + b + "), .", din})
+			for _, c := range deep {
+				out = append(out, struct{ Src, In string }{"(" + a + " * " + b + " * " + c + "), .", din})
+			}
+		}
+	}
+	for _, src := range []string{
+		`reduce .arr[] as $o ({}; . * $o)`, `reduce .arr[] as $o (.d1; . * $o)`, `.d1 as $b | $b * .arr[]`, `.arr | .[0] * .[1] * .[2]`, `[.arr[] | .a] | .[0] * .[1]`, `.d1 * .d2 | .a.b.c.new = 1`, `(.d1 * .d2), (.d1 * .d3)`, `.d1 * {"a":{"b":{"c":{"u":9}}}}`, `{"a":{"b":{"c":{}}}} * .d1`,
+		`.d1 * .d2 * .d1`, `[.d1, .d2, .d3] | add`, `.d1 + .d2 | .a.b.c.new = 1`, `.d1 * (.d2 * .d3)`, `(.d1, .d2) * .d3`, `.d1.a * .d2.a`, `.d1.a.b * .d2.a.b * .d3.a.b`, `.arr[0] * .arr[1] | ., (. * .)`, `. * {"d1":{"a":{"b":{"c":{"n":1}}}}}`, `with_entries(.value |= (objects | . * {"a":{"b":{"m":1}}}))?`,
+	} {
+		out = append(out, struct{ Src, In string }{"(" + src + "), .", din})
+	}
 	for _, src := range []string{
 		`.s + .t + .s`, `.t + .s + .t`, `.n + .s + .t`, `.i + .j + .n`, `.n + .n + .a`, `.a + .n + .n + .z`, `.e + .a + .e + .z + .e`, `.l + .k + .l + .m + .l`, `(.a + .e) + .z`, `.a + (.e + .z)`, `.e + .a | . + .z`, `[.e, .a, .z] | .[0] + .[1] + .[2]`,
 		`. as $d | $d.e + $d.a + $d.z`, `.e as $e | .a as $a | $e + $a + .z`, `reduce (.a, .z) as $o (.e; . + $o)`, `reduce (.e, .a, .z) as $o (null; . + $o)`, `.a + .e + .z | .new = 1`, `(.e + .a + .z), (.e + .a + .z)`, `.k + .l + .m | .[0] = 9`, `.a * .e * .z | .q.w = 1`,
